@@ -160,11 +160,12 @@ def siteKeyOk (key : Bytes) : Bool :=
   host.all hostTokByte && path.all (fun c => keyPathByte c || c == cSlash) &&
   (portPart.isEmpty || (!port.isEmpty && port.all (fun c => 48 ≤ c && c ≤ 57) && decide (port.length ≤ 5) &&
      decide (1 ≤ digitsVal port) && decide (digitsVal port ≤ 65535) &&
-     !(hasPrefix key httpScheme && digitsVal port == 443))) &&
+     !(hasPrefix key httpScheme && digitsVal port == 443) && !(hasPrefix key httpsScheme && digitsVal port == 80))) &&
   !(host.isEmpty && portPart.isEmpty) && !containsSub rest [58, 47, 47]
 
 def parseMode : String → Option TokMode
   | "none" => some .none | "star" => some .star | "implicit" => some .implicit | "named" => some .named
+  | "handle" => some .handle | "handlepath" => some .handlePath
   | _ => none
 
 def cfTokensOk (mode : TokMode) (hosts pats : List Bytes) : Bool :=
@@ -173,6 +174,8 @@ def cfTokensOk (mode : TokMode) (hosts pats : List Bytes) : Bool :=
    | .none => hosts.isEmpty && pats.isEmpty
    | .star => hosts.isEmpty && pats.isEmpty
    | .implicit => hosts.isEmpty && pats.length == 1 && pats.all (fun p => p.head? == some cSlash)
+   | .handle => hosts.isEmpty && pats.length == 1 && pats.all (fun p => p.head? == some cSlash)
+   | .handlePath => hosts.isEmpty && pats.length == 1 && pats.all (fun p => p.head? == some cSlash)
    | .named => !(hosts.isEmpty && pats.isEmpty))
 
 def handleSite : List String → String
@@ -285,9 +288,10 @@ def handleSrv : List String → String
 /-! ### `srvredir`: the automatic HTTP→HTTPS redirect route of a server with one or two
     host-matched routes (caddy.ProvisionContext, then the redirect server's ServeHTTP) -/
 
-/-- does the code provision the redirect route's host matcher?  (`false` = the code as it is:
-    autohttps.go builds `MatchHost(domains)` and "bypasses Provision") -/
-def redirProvisioned : Bool := false
+/-- the code provisions the redirect route's host matcher (since the `fix:` commit "provision the
+    host matcher of the automatic HTTP->HTTPS redirect route"; before, `MatchHost(domains)` was
+    used as built: `redirCase false`, see `Props.redirHost_size_invariant_old_code_fails`) -/
+def redirProvisioned : Bool := true
 
 def handleRedir : List String → String
   | ["srvredir", la, lb, envA, envB, hdr, rhost] =>
